@@ -172,7 +172,7 @@ def build(ctx):
     # every <data> container operation on a view bound to malloc(n): the length prefix already in the buffer is ANY value up to NMAX+6 (stale / hostile: larger than the view allows),
     # arguments are valid for a vector of that size; handler-or-in-bounds, and no handler when old and new contents fit
     import c13
-    dsel = ("uint8le_char", "uint16be_uint8", "uint64le_char") if ctx.quick else ("uint8le_char", "uint8be_int8", "uint16le_char", "uint16be_uint8", "uint32le_uint8", "uint32be_char", "uint64le_char", "uint64be_uint8")
+    dsel = ("uint8le_char", "uint16be_uint8", "uint64le_char") if ctx.quick else ("uint8le_char", "uint16be_uint8", "uint32le_uint8", "uint64le_char", "uint64be_uint8")
     for inst in [i for i in c13.insts() if i[0] in dsel]:
         (I, v_, l_, en_, lsz, be) = inst
         for std in (("17",) if ctx.quick else ("11", "17", "20")):
